@@ -123,7 +123,7 @@ def do_case(ctx, inp):
 
 def run(ctx):
     rng = ctx.rng
-    n = (200 if ctx.quick else 3000) * (3 if ctx.search else 1)
+    n = (450 if ctx.quick else 3000) * (3 if ctx.search else 1)
     for _ in range(n):
         if rng.random() < 0.3:
             a, o, t = valid_configurator(rng, ctx.quick)
